@@ -41,6 +41,8 @@ NODE_ROLES = {
                      "locked_node": "CUR", "node": "ALL"},
     "simulatedQubit": {},
 }
+# a local assigned from `self.get_connection(<name>)` is the node that name refers to
+CONNECTION_ARG_ROLES = {"targetName": "RECV", "simNodeName": "OLD", "oldSimNodeName": "OLD"}
 # names that denote qubit handles (virtualQubit objects); a parameter bound to a handle at an inlined call
 # takes the caller's handle instead
 HANDLES = {
@@ -180,6 +182,8 @@ class Frame:
         self.recursive = False
         self.loop_depth = 0
         self.none_tested = set()
+        self.local_role_src = {}
+        self.local_roles = {}             # local name -> node role, bound by what the name was assigned from
         self.consts = {}                  # local name -> 'None' | 'empty'  (known constant value)
         self.dyn_depth = 0                # > 0 inside a branch that is not taken for sure
 
@@ -190,12 +194,15 @@ class Translator:
         self.role_uses = set()            # (class, expression text, role) actually used
         self.flag_names = {}
         self.frames = []
-        self.notes = []
+        self.notes = {}
 
     # ---- small helpers ------------------------------------------------------------------------------
     @property
     def fr(self):
         return self.frames[-1]
+
+    def note(self, msg):
+        self.notes.setdefault(msg, set()).add(self.top_name)
 
     def opaque(self, why):
         why = " ".join(str(why).split())[:70].replace('"', "'").replace("\\", "/")
@@ -225,7 +232,10 @@ class Translator:
                 role = "SELF" if node.attr == "virtNode" else "(SIM %s)" % h
                 self.role_uses.add((self.fr.cls, "<handle %s>.%s" % (h, node.attr), role))
                 return role
-        # a local name that shadows a table entry with a handle (e.g. parameter `qubit`) is not a node
+        if isinstance(node, ast.Name) and node.id in self.fr.local_roles:
+            role = self.fr.local_roles[node.id]
+            self.role_uses.add((self.fr.cls, "%s (assigned from %s)" % (node.id, self.fr.local_role_src[node.id]), role))
+            return role
         role = NODE_ROLES[self.fr.cls].get(txt)
         if role is not None:
             self.role_uses.add((self.fr.cls, txt, role))
@@ -286,9 +296,6 @@ class Translator:
         for k in call.keywords:
             out += self.ev_expr(k.value)
         return out
-
-    def lock_op(self, kind, role, awaited, timeout=False):
-        return (kind, role, timeout) if kind == "acquire" else (kind, role)
 
     def ev_call_method(self, call, awaited):
         """call_method(obj, "name", *args)"""
@@ -371,7 +378,7 @@ class Translator:
         # lock / unlock of a simulated qubit object
         if name in ("lock", "unlock", "remote_lock", "remote_unlock"):
             if self.fr.cls == "simulatedQubit" and rtxt == "self":
-                return pre + self.inline(self.fr.cls, name.replace("remote_", "") if False else name, call, awaited, None)
+                return pre + self.inline(self.fr.cls, name, call, awaited, None)
             q, _ = self.qref(recv)
             if q is not None:
                 if name.endswith("unlock"):
@@ -623,14 +630,14 @@ class Translator:
             k = self.fr.kinds.get(test.value.id)
             if k and k[0] == "each":
                 if k[1] in self.fr.cancelled:
-                    self.notes.append("%s: `%s.called` after `cancel()` is always true (a cancelled Deferred "
-                                      "counts as called): only the then-branch is kept" % (self.top_name, test.value.id))
+                    self.note("`%s.called` after `cancel()` is always true (a cancelled Deferred counts as "
+                              "called): only the then-branch is kept" % test.value.id)
                     return seq(pre + [self.branch(st.body)])
                 return seq(pre + [ite(".any", self.branch(st.body), self.branch(st.orelse))])
         # `if self._lock.locked: self._lock.release()`: "release if locked" — it is locked whenever the caller holds it
         if self.text(test) == "self._lock.locked" and not st.orelse:
-            self.notes.append("%s: `if self._lock.locked:` guarding a release is kept as an unconditional release "
-                              "(DeferredLock has no owner: it frees the lock whoever holds it)" % self.top_name)
+            self.note("`if self._lock.locked:` guarding a release is kept as an unconditional release "
+                      "(DeferredLock has no owner: it frees the lock whoever holds it)")
             return seq(pre + [self.branch(st.body)])
         # filter on the loop variable of a collapsed `for q in self.simQubits`
         if self.fr.qsets:
@@ -691,9 +698,6 @@ class Translator:
                 self.fr.qsets.pop(tnames[0])
         if st.orelse:
             return self.opaque("for … else")
-        saved = None
-        if self.fr.cls == "virtualNode" and self.text(base) == "self.virtQubits" and tnames == ["q"]:
-            pass
         self.fr.loop_depth += 1
         try:
             body = self.branch(st.body)
@@ -751,6 +755,19 @@ class Translator:
             if value.func.id == "deferLater":
                 self.fr.kinds[targets[0].id] = ("timer",)
                 return seq(self.ev_args(value))
+        # a local bound to a node by what it is assigned from (more robust than its name)
+        if len(targets) == 1 and isinstance(targets[0], ast.Name):
+            self.fr.local_roles.pop(targets[0].id, None)
+            inner = value.value if isinstance(value, ast.Yield) else value
+            if isinstance(inner, ast.Call) and isinstance(inner.func, ast.Attribute):
+                fname = inner.func.attr
+                if fname == "get_connection" and self.text(inner.func.value) == "self" and len(inner.args) == 1 \
+                        and isinstance(inner.args[0], ast.Name) and inner.args[0].id in CONNECTION_ARG_ROLES:
+                    self.fr.local_roles[targets[0].id] = CONNECTION_ARG_ROLES[inner.args[0].id]
+                    self.fr.local_role_src[targets[0].id] = "get_connection(%s)" % inner.args[0].id
+                elif fname == "_lock_simulating_node":
+                    self.fr.local_roles[targets[0].id] = "CUR"
+                    self.fr.local_role_src[targets[0].id] = "_lock_simulating_node(…)"
         # x = yield self.helper(...): track whether the helper returned a value, if the caller tests it
         ev = None
         if isinstance(value, ast.Yield) and isinstance(value.value, ast.Call) and len(targets) == 1 \
@@ -1060,7 +1077,7 @@ def extract(repo_root):
         methods.append({"cls": cls, "name": name, "lean": LEAN_PREFIX[cls] + name, "term": term,
                         "line": classes[cls][name].lineno})
     return {"methods": methods, "roles": tr.role_uses, "flags": tr.flag_names,
-            "notes": sorted(set(tr.notes))}
+            "notes": ["%s   [in: %s]" % (msg, ", ".join(sorted(ms))) for msg, ms in sorted(tr.notes.items())]}
 
 
 def opaque_list(tab):
